@@ -43,7 +43,7 @@ BUDGET = {
     'quick': dict(runs=24000, wall=45),
     'thorough': dict(runs=600000, wall=540),
 }
-RUNS_SCALE = {'C02': 0.35}   # per-property multipliers (heavier oracles run fewer histories)
+RUNS_SCALE = {'C02': 0.35, 'C09': 0.4, 'C10': 0.4, 'C18': 0.4, 'C07': 0.6}   # per-property multipliers (heavier oracles run fewer histories)
 
 
 def run_seeds(vseed, focus, n):
